@@ -116,10 +116,12 @@ func gParse(c *Ctx, mode int, tag string) {
 	// the step lemma reads "reduce -a" as rule a of the file: confirmed per grammar on the
 	// native dump (a tree that numbers its rules differently is decided without the lemma)
 	stepOK := map[string]bool{}
-	if g.NoStep == "" {
-		if dumps, err := c.DumpAll(y, specs); err == nil {
-			for _, s := range specs {
-				if r := dumps[s.Name]; r.OK && r.Dump != nil && rulesInFileOrder(s, r.Dump) {
+	stepDump := map[string]*Dump{}
+	if dumps, err := c.DumpAll(y, specs); err == nil {
+		for _, s := range specs {
+			if r := dumps[s.Name]; r.OK && r.Dump != nil && rulesInFileOrder(s, r.Dump) {
+				stepDump[s.Name] = r.Dump
+				if g.NoStep == "" {
 					stepOK[s.Name] = true
 				}
 			}
@@ -230,7 +232,36 @@ func gParse(c *Ctx, mode int, tag string) {
 			c.MarkDistinct(s.Name + "/ts")
 		}()
 	}
+	// the step lemma for the TypeScript driver (harness text in the grammar's epilogue)
+	nTSStep := 0
+	for _, s := range specs {
+		s := s
+		d := stepDump[s.Name]
+		if d == nil || s.HasTag("big") {
+			continue
+		}
+		if !c.Thorough() && mode&(modeSound|modeValue) == 0 {
+			// the TypeScript step harness asserts every aspect at once: the quick tier runs it
+			// under C01 and C07 only
+			continue
+		}
+		nTSStep++
+		wg.Add(1)
+		sem <- struct{}{}
+		go func() {
+			defer wg.Done()
+			defer func() { <-sem }()
+			c.tsStepJob(g.Eng, s, d, g.TSPath(s.Name), D, tag)
+		}()
+	}
+	if nTSStep > 0 {
+		c.Harnesses = append(c.Harnesses, "tool/corpus: TSStepEpilogue verifStep (TypeScript text in the grammar's epilogue, run by tsmini and, for replays, by node)")
+		c.Bound("step lemma for the TypeScript driver: same statement as for the Go drivers, depth and slots <= %d, %d grammars", D, nTSStep)
+	}
 	wg.Wait()
+	if nTSStep > 0 {
+		c.NeedCovers("ts-step")
+	}
 	c.Programs = len(specs)
 	// inputs of any length: the emitted dense table is validated cell by cell against the
 	// Horn model of the LALR(1) automaton (premise of the standard LR correctness argument)
